@@ -157,12 +157,9 @@ func (p *planner) planMetrics15Shortcut(script any) error {
 		if err != nil {
 			return err
 		}
-		withLabels := false
-		if script.ByOrWithoutPrefix != nil || script.ByOrWithoutSuffix != nil {
-			withLabels = true
-			p.matrixFunctionsLabelsIDX = 0
-		}
-		err = p.planAgg(script, withLabels)
+		// the aggregation attaches the labels of its groups (also without grouping clause: the empty set)
+		p.matrixFunctionsLabelsIDX = 0
+		err = p.planAgg(script, true)
 		if err != nil {
 			return err
 		}
@@ -344,7 +341,12 @@ func (p *planner) planByWithout(byWithout ...*logql_parser.ByOrWithout) error {
 }
 
 func (p *planner) planAgg(agg *logql_parser.AggOperator, withLabels bool) error {
-	err := p.planByWithout(agg.ByOrWithoutPrefix, agg.ByOrWithoutSuffix)
+	byWithout := []*logql_parser.ByOrWithout{agg.ByOrWithoutPrefix, agg.ByOrWithoutSuffix}
+	if agg.ByOrWithoutPrefix == nil && agg.ByOrWithoutSuffix == nil {
+		// no grouping clause: everything is aggregated into one series, the one of the empty label set (`by ()`)
+		byWithout = []*logql_parser.ByOrWithout{{Fn: "by"}}
+	}
+	err := p.planByWithout(byWithout...)
 	if err != nil {
 		return err
 	}
